@@ -11,7 +11,7 @@ From TV Require Import spec.Num spec.PyBase spec.PyLib spec.Spec gen.IRAst.
 From Coq Require Import Permutation.
 From TV Require Import spec.Storage.
 From TV Require Import proofs.PyLibFacts proofs.GenExhaust_equiv proofs.GenNames_equiv proofs.GenDeparse_equiv
-  proofs.GenDesugar_equiv.
+  proofs.GenDesugar_equiv proofs.GenVariables_equiv proofs.GenIndexParticipants_equiv.
 Import ListNotations.
 
 (* ------------------------------------------------------------------------------------------ *)
@@ -192,3 +192,45 @@ Theorem TIE_desugar_correct_gen :
       /\ MS.denote_at tidx E sizes (convD O fl d) c = spec (mkAssign tn tidx (convE O fl e)) E sizes c.
 Proof. exact gen_desugar_correct. Qed.
 Print Assumptions TIE_desugar_correct_gen.
+
+(* ------------------------------------------------------------------------------------------ *)
+(** * expression/ast.py, the variables methods  =  model/ExprAst.v variables  (C10, C15)
+    the same association list in the same (insertion) order; the regenerated function never raises *)
+
+Theorem TIE_variables_equiv :
+  forall (fid : F -> Z) (e : GenVariables_equiv.GD.ex_expr),
+    exists d, GenVariables_equiv.GD.Expression_variables e = Some d
+              /\ conv_vars d = EA.variables (convA fid e).
+Proof. exact gen_variables_equiv. Qed.
+Print Assumptions TIE_variables_equiv.
+
+Theorem TIE_variable_orders_gen :
+  forall (fid : F -> Z) (n : string) (idx : list string) (e : GenVariables_equiv.GD.ex_expr) d,
+    GenVariables_equiv.GD.Expression_variables e = Some d ->
+    EA.variable_orders (EA.Assignment (EA.TRef n idx) (convA fid e))
+    = (n, List.length idx) :: map (fun kv => (fst kv, EA.first_order (map tref_of (snd kv)))) d.
+Proof. exact gen_variable_orders. Qed.
+Print Assumptions TIE_variable_orders_gen.
+
+(* ------------------------------------------------------------------------------------------ *)
+(** * expression/ast.py, index_participants (+ merge_index_participants)  =  model/ExprAst.v  (C10, C15)
+    for every iteration order [ord_set] of the key set (the model's oracle may also depend on the
+    place: the regenerated behaviours are among the model's) *)
+
+Theorem TIE_index_participants_equiv :
+  forall (ord_set : list string -> list string) (fid : F -> Z)
+         (e : GenVariables_equiv.GD.ex_expr) (pth : EA.path),
+    GenVariables_equiv.GD.Expression_index_participants ord_set e
+    = lift_ip (EA.index_participants (fun _ l => ord_set l) pth (convA fid e)).
+Proof. exact gen_index_participants_equiv. Qed.
+Print Assumptions TIE_index_participants_equiv.
+
+(** the summary [index_names] that gen/Desugar.v uses for [e.index_participants().keys()] is right
+    as a set, for every iteration order *)
+Theorem TIE_index_names_summary :
+  forall (ord_set : list string -> list string), (forall l, Permutation (ord_set l) l) ->
+  forall (e : GenVariables_equiv.GD.ex_expr) (k : string),
+    In k (map fst (GenVariables_equiv.GD.Expression_index_participants ord_set e))
+    <-> In k (TV.gen.Desugar.index_names e).
+Proof. intros ord_set H. exact (gen_index_names_summary ord_set (fun _ => 0%Z) H). Qed.
+Print Assumptions TIE_index_names_summary.
